@@ -16,10 +16,19 @@ limitations under the License.
 
 package ahtree
 
-import "crypto/sha256"
+import (
+	"crypto/sha256"
+	"math/bits"
+)
 
 func VerifyInclusion(iproof [][sha256.Size]byte, i, j uint64, iLeaf, jRoot [sha256.Size]byte) bool {
 	if i > j || i == 0 || (i < j && len(iproof) == 0) {
+		return false
+	}
+
+	// the walk from the i-th leaf must end at the root of the tree of size j:
+	// once every term has been consumed, both positions must have met
+	if len(iproof) < 64 && (i-1)>>uint(len(iproof)) != (j-1)>>uint(len(iproof)) {
 		return false
 	}
 
@@ -64,12 +73,25 @@ func VerifyConsistency(cproof [][sha256.Size]byte, i, j uint64, iRoot, jRoot [sh
 		return iRoot == jRoot
 	}
 
-	ciRoot, cjRoot := EvalConsistency(cproof, i, j)
+	ciRoot, cjRoot, complete := evalConsistency(cproof, i, j)
+
+	// when i == j both roots are calculated in the same way and
+	// thus equal, so only a proof between different sizes may be incomplete
+	if i < j && !complete {
+		return false
+	}
 
 	return iRoot == ciRoot && jRoot == cjRoot
 }
 
 func EvalConsistency(cproof [][sha256.Size]byte, i, j uint64) ([sha256.Size]byte, [sha256.Size]byte) {
+	ciRoot, cjRoot, _ := evalConsistency(cproof, i, j)
+	return ciRoot, cjRoot
+}
+
+// evalConsistency also reports whether the proof is complete, i.e. whether its terms lead
+// exactly up to the root of the tree of size j (no missing and no extra terms)
+func evalConsistency(cproof [][sha256.Size]byte, i, j uint64) (ciRoot, cjRoot [sha256.Size]byte, complete bool) {
 	fn := i - 1
 	sn := j - 1
 
@@ -78,11 +100,18 @@ func EvalConsistency(cproof [][sha256.Size]byte, i, j uint64) ([sha256.Size]byte
 		sn >>= 1
 	}
 
-	ciRoot, cjRoot := cproof[0], cproof[0]
+	ciRoot, cjRoot = cproof[0], cproof[0]
 
 	b := [1 + sha256.Size*2]byte{NodePrefix}
 
+	complete = true
+
 	for _, h := range cproof[1:] {
+		if sn == 0 {
+			// the root of the larger tree was already reached
+			complete = false
+		}
+
 		if fn%2 == 1 || fn == sn {
 			copy(b[1:], h[:])
 
@@ -105,11 +134,16 @@ func EvalConsistency(cproof [][sha256.Size]byte, i, j uint64) ([sha256.Size]byte
 		sn >>= 1
 	}
 
-	return ciRoot, cjRoot
+	return ciRoot, cjRoot, complete && sn == 0
 }
 
 func VerifyLastInclusion(iproof [][sha256.Size]byte, i uint64, leaf, root [sha256.Size]byte) bool {
 	if i == 0 {
+		return false
+	}
+
+	// the last leaf of a tree of size i has one left sibling per bit set in i-1
+	if len(iproof) != bits.OnesCount64(i-1) {
 		return false
 	}
 
